@@ -69,10 +69,22 @@ type vfGroupLayer struct {
 	groups           map[string]*vfGroupState
 	rebalanceTimeout time.Duration
 	loadInProgress   int // number of OffsetFetch answers still to be LOAD_IN_PROGRESS
+	issued           map[string][2]string // client -> (member id, generation) of its latest successful JoinGroup answer
+}
+
+// checkIdentity records an event when a request of a client does not carry the identity the coordinator issued to it.
+func (gl *vfGroupLayer) checkIdentityLocked(what, client, member string, gen int32) {
+	is, ok := gl.issued[client]
+	if !ok {
+		return
+	}
+	if member != is[0] || fmt.Sprint(gen) != is[1] {
+		gl.sim.hist.add(vfEvent{Kind: "identity-mismatch", Note: fmt.Sprintf("%s from %s carries member=%q generation=%d, the coordinator issued member=%q generation=%s", what, client, member, gen, is[0], is[1])}, true)
+	}
 }
 
 func (s *vfSim) enableGroups() *vfGroupLayer {
-	gl := &vfGroupLayer{sim: s, groups: map[string]*vfGroupState{}, rebalanceTimeout: 150 * time.Millisecond}
+	gl := &vfGroupLayer{sim: s, groups: map[string]*vfGroupState{}, rebalanceTimeout: 150 * time.Millisecond, issued: map[string][2]string{}}
 	s.mu.Lock()
 	s.groupLayer = gl
 	s.extra[8] = gl.handleOffsetCommit
@@ -312,6 +324,9 @@ func (gl *vfGroupLayer) handleOffsetCommit(c *vfSimConn, key, version int16, bod
 	}
 	gl.mu.Lock()
 	g := gl.group(group)
+	if member != "" || gen >= 0 {
+		gl.checkIdentityLocked("OffsetCommit", c.clientID(), member, gen)
+	}
 	groupCode := int16(0)
 	switch {
 	case g.Coordinator != c.broker.ID:
@@ -554,6 +569,7 @@ func (gl *vfGroupLayer) handleJoin(c *vfSimConn, key, version int16, body []byte
 			members[id] = mm.Metadata[g.Protocol]
 		}
 	}
+	gl.issued[c.clientID()] = [2]string{member, fmt.Sprint(g.Generation)}
 	gl.sim.hist.add(vfEvent{Kind: "join-resp", Key: group, Code: 0, N: int(g.Generation), Note: c.clientID() + " member=" + member}, true)
 	if f.Kind == "dropAfter" {
 		return nil, "close"
@@ -599,6 +615,7 @@ func (gl *vfGroupLayer) handleSync(c *vfSimConn, key, version int16, body []byte
 	}
 	gl.mu.Lock()
 	g := gl.group(group)
+	gl.checkIdentityLocked("SyncGroup", c.clientID(), member, gen)
 	m := g.Members[member]
 	switch {
 	case g.Coordinator != c.broker.ID:
@@ -711,6 +728,7 @@ func (gl *vfGroupLayer) handleHeartbeat(c *vfSimConn, key, version int16, body [
 	}
 	gl.mu.Lock()
 	g := gl.group(group)
+	gl.checkIdentityLocked("Heartbeat", c.clientID(), member, gen)
 	code := int16(0)
 	switch {
 	case f.Kind == "err":
@@ -749,6 +767,9 @@ func (gl *vfGroupLayer) handleLeave(c *vfSimConn, key, version int16, body []byt
 	}
 	gl.mu.Lock()
 	g := gl.group(group)
+	if is, ok := gl.issued[c.clientID()]; ok && is[0] != member {
+		gl.sim.hist.add(vfEvent{Kind: "identity-mismatch", Note: fmt.Sprintf("LeaveGroup from %s carries member=%q, the coordinator issued %q", c.clientID(), member, is[0])}, true)
+	}
 	code := int16(0)
 	switch {
 	case f.Kind == "err":
